@@ -250,7 +250,7 @@ def layers(tier):
                                          'padding': padding, 'rs': rs, 't': t, 'op': op, 'n_jobs': nj, 'pres': pres,
                                          'order': 'rev' if nj == 3 else None})
     for t in (0, 1, 2):         # pandas str columns and the other presentations, whatever the seed
-        for p_ in (1, 2, 3, 4, 5):
+        for p_ in (1, 2, 3, 4, 5, 6):
             jobs.append({'gen': {'gen': 'struniv', 'alpha': 'ab', 'lmax': 4, 'rmax': 4}, 'q': 2, 'padding': True,
                          'rs': False, 't': t, 'op': '<=', 'n_jobs': 2, 'pres': p_, 'withmissing': True, 'am': True})
     for t in THS:
